@@ -31,9 +31,9 @@ type ival struct {
 	set    map[int64]bool // exact small set when non-nil
 }
 
-func topVal() ival           { return ival{lo: -inf, hi: inf} }
+func topVal() ival               { return ival{lo: -inf, hi: inf} }
 func rangeVal(lo, hi int64) ival { return ival{lo: lo, hi: hi} }
-func constVal(k int64) ival   { return ival{lo: k, hi: k, set: map[int64]bool{k: true}} }
+func constVal(k int64) ival      { return ival{lo: k, hi: k, set: map[int64]bool{k: true}} }
 
 func (a ival) empty() bool { return a.lo > a.hi || (a.set != nil && len(a.set) == 0) }
 
@@ -331,12 +331,12 @@ func (w *World) keyStable(fn *ssa.Function, k sliceKey, between func(st ssa.Inst
 // ---- the obligation
 
 type boundsGoal struct {
-	fn     *ssa.Function
-	site   ssa.Instruction
-	slice  ssa.Value // x
-	index  ssa.Value // i (nil: only a length requirement)
-	minLen int64     // required len(x) ≥ minLen (for index==nil)
-	upperIncl bool   // slice bound: i ≤ len(x) instead of i < len(x)
+	fn        *ssa.Function
+	site      ssa.Instruction
+	slice     ssa.Value // x
+	index     ssa.Value // i (nil: only a length requirement)
+	minLen    int64     // required len(x) ≥ minLen (for index==nil)
+	upperIncl bool      // slice bound: i ≤ len(x) instead of i < len(x)
 }
 
 type libFacts func(call *ssa.Call, resultIdx int) (minLen int64, needErrNil bool, ok bool)
